@@ -476,6 +476,8 @@ def less_args_task(case):
     env["PATH"] = sd + ":" + env["PATH"]
     env["VERIF_REC_DIR"] = rec
     args = ["--no-gitconfig", "--paging=always", "--detect-dark-light=never"]
+    # (`less` named with its directory is less all the same)
+    value = value.replace("@SD@", sd)
     if source == "cli":
         args.append("--pager=" + value)
     elif source == "DELTA_PAGER":
@@ -603,6 +605,9 @@ def main(tier):
     lres = explore.pmap(less_args_task, [
         ("default", "", True), ("PAGER", "less", True), ("PAGER", "less -F -X", True), ("BAT_PAGER", "less -F", True),
         ("DELTA_PAGER", "less -F -X", False), ("cli", "less -K", False), ("DELTA_PAGER", "less", True),
+        ("PAGER", "@SD@/less", True), ("PAGER", "@SD@/less -F -X", True), ("BAT_PAGER", "@SD@/less -F", True),
+        ("BAT_PAGER", "@SD@/less", True), ("DELTA_PAGER", "@SD@/less", True), ("cli", "@SD@/less", True),
+        ("DELTA_PAGER", "@SD@/less -F -X", False), ("cli", "@SD@/less -K", False),
     ])
     mres = explore.pmap(paging_mode_task, [(m, p) for m in ("always", "auto", "never") for p in (None, (24, 80))])
     stres = explore.pmap(status_task, [("differ", 0), ("differ", 1), ("differ", 2)] +
